@@ -24,6 +24,13 @@ func TestReplay(t *testing.T) {
 	}
 	json.Unmarshal(raw, &hdr)
 	f, ok := replayers[hdr.Prop]
+	var fields map[string]json.RawMessage
+	json.Unmarshal(raw, &fields)
+	for _, m := range markedReplayers {
+		if _, has := fields[m.field]; has && m.prop == hdr.Prop {
+			f, ok = m.f, true
+		}
+	}
 	if !ok {
 		t.Fatalf("no replayer for %s", hdr.Prop)
 	}
